@@ -112,30 +112,42 @@ P = {
 # Python functions re-translated into Lean from /repo's current source on every run (harness/py2lean.py, harness/pytrace.py) and proved equal to the
 # model (Tie/Py*.lean), with the property-level corollaries about the translated code (Tie/PyProps*.lean); DESIGN §9.5
 PYTIE = {
- 'C01': ('find_kmers, KmerMatch.kmer_indices, KmerMatch.kmer_index, accumulate_kmers, default_accumulator, calc_signature', 'find_kmers_eq, kmer_indices_fwd/rev, py_find_kmers_complete, py_calc_signature_spec'),
- 'C03': ('matching_taxon, GenomeMatch.next_taxon, classify, reportable_taxon, get_result_item',
-         'matching_taxon_eq, next_taxon_eq, classify_default_eq, reportable_taxon_eq, get_result_item_eq, py_matching_spec, py_next_spec, py_coarsen_mono, py_classify_default_ok'),
- 'C02': ('_cast_sigs_array, jaccard, jaccarddist (the Python wrappers of the kernels)', 'cast_sigs_array_eq, jaccarddist_eq, jaccard_eq, jaccarddist_bad, py_jaccarddist_correctly_rounded'),
- 'C04': ('_check_genomes_have_ids, _map_ids_to_genomes, genomes_by_id, genomes_by_id_subset, ReferenceDatabase.__init__', 'genomes_by_id_subset_eq, refdb_init_eq, py_refdb_pairing'),
- 'C05': ('chunk_slices, jaccarddist_array, jaccarddist_matrix, jaccarddist_pairwise', 'chunk_slices_eq/_bad/_neg, py_chunks_partition and the PyBulk / PyPairwise theorems listed in DESIGN §9.1'),
+ 'C01': ('find_kmers, KmerMatch.kmer_indices, KmerMatch.kmer_index, accumulate_kmers, default_accumulator, calc_signature; as structural facts the accumulator classes and the binding of revcomp / ckmers to the compiled module',
+         'find_kmers_eq, kmer_indices_fwd/rev, py_find_kmers_complete, py_calc_signature_spec, accumulator_facts, kmer_binding_facts'),
+ 'C02': ('_cast_sigs_array, jaccard, jaccarddist (the Python wrappers of the kernels); as a structural fact that _cmetric is the compiled module',
+         'cast_sigs_array_eq, jaccarddist_eq, jaccard_eq, jaccarddist_bad, py_jaccarddist_correctly_rounded, metric_binding_facts'),
+ 'C03': ('matching_taxon, GenomeMatch.next_taxon, classify, reportable_taxon, get_result_item; as structural facts the data flow of query()',
+         'matching_taxon_eq, next_taxon_eq, classify_default_eq, reportable_taxon_eq, get_result_item_eq, py_matching_spec, py_next_spec, py_coarsen_mono, py_classify_default_ok, query_flow_facts'),
+ 'C04': ('_check_genomes_have_ids, _map_ids_to_genomes, genomes_by_id, genomes_by_id_subset, ReferenceDatabase.__init__; as structural facts the data flow of query() (ref_indices=db.sig_indices)',
+         'genomes_by_id_subset_eq, refdb_init_eq, py_refdb_pairing, query_flow_facts'),
+ 'C05': ('chunk_slices, jaccarddist_array, jaccarddist_matrix, jaccarddist_pairwise',
+         'chunk_slices_eq/_bad/_neg, py_chunks_partition, jaccarddist_array_spec, jaccarddist_matrix_eq, py_matrix_cells, py_pairwise_flat, py_pairwise_square, metric_binding_facts'),
+ 'C06': ('find_kmers, KmerMatch.kmer_index, accumulate_kmers, calc_signature, calc_file_signature, guess_compression; accumulator and binding facts',
+         'find_kmers_eq, py_calc_signature_spec, calc_file_signature_eq, py_file_signature_invariant, py_file_signature_union, guess_compression_eq, accumulator_facts, kmer_binding_facts'),
+ 'C07': ('kmer_to_index, kmer_to_index_rc, index_dtype, nkmers; as structural facts that seq.revcomp / kmers.index_to_kmer are the compiled functions',
+         'kmer_to_index_eq, kmer_to_index_rc_eq, index_dtype_eq, nkmers_eq, kmer_binding_facts'),
+ 'C08': ('strip_extensions, strip_seq_file_ext, get_file_id, calc_file_signatures, calc_file_signature',
+         'strip_extensions_eq, strip_seq_file_ext_eq, get_file_id_eq/_nostrip/_noext, calc_files_sequential_eq, calc_files_pool_eq, calc_file_signature_eq'),
+ 'C09': ('classify, get_result_item; the data flow of query() as structural facts',
+         'classify_default_eq, classify_strict_eq, get_result_item_eq, get_result_item_head, py_closest_ok, query_flow_facts'),
+ 'C10': ('find_matches, consensus_taxon, classify; the data flow of query() as structural facts',
+         'find_matches_eq, consensus_taxon_eq, classify_strict_eq, py_consensus_perm, py_classify_strict_ok, query_flow_facts'),
+ 'C11': ('getattr_nested and the column table of CSVResultsExporter (COLUMNS, get_header, get_row)',
+         'getattr_nested_eq, py_csv_cells, py_csv_row, csv_header_eq, csv_row_eq, csv_structural_facts'),
+ 'C12': ('the storage calls of dump_signatures_hdf5 / HDF5Signatures.create / _init_attrs / write_metadata / _init_datasets, the loader\'s checks, HDF5Signatures.__init__ (structural facts), the inherited __getitem__ and _getitem_* methods, the method resolution of the collection classes (structural facts)',
+         'writer_trace_eq, hdf5_structural_facts, reader_structural_facts, class_structure_facts, concat_getitem_eq, concat_getitem_slice_eq'),
  'C13': ('calc_file_signatures', 'calc_files_executor_eq, calc_files_pool_eq, calc_files_sequential_eq, calc_files_bad_concurrency, py_calc_files_any_order'),
- 'C15': ('_cast_sigs_array, jaccard, jaccarddist', 'jaccarddist_eq, py_width_irrelevant'),
+ 'C14': ('kspec_from_params, the parameter-deciding fragments of `dist` and `signatures create`, structural facts of the three commands',
+         'kspec_from_params_eq, dist_params_eq, create_params_eq, py_dist_never_silent, cli_structural_facts'),
+ 'C15': ('_cast_sigs_array, jaccard, jaccarddist, jaccarddist_array / _matrix / _pairwise', 'jaccarddist_eq, py_width_irrelevant, jaccarddist_array_spec, jaccarddist_matrix_eq, metric_binding_facts'),
+ 'C16': ('strip_extensions, strip_seq_file_ext, get_file_id; as structural facts the data flow of dist_cmd and the layout written by dump_dmat_csv',
+         'get_file_id_eq, dist_flow_facts'),
+ 'C17': ('linkage_to_bio_tree', 'linkage_to_bio_tree_eq, linkage_to_bio_tree_gen, linkage_to_bio_tree_bad_labels, py_linkage_tree_props'),
  'C18': ('ReadOnlySession, its before_commit listener, file_sessionmaker (structure)', 'session_structural_facts'),
- 'C06': ('find_kmers, KmerMatch.kmer_index, accumulate_kmers, calc_signature', 'find_kmers_eq, py_calc_signature_spec'),
- 'C07': ('kmer_to_index, kmer_to_index_rc, index_dtype, nkmers', 'kmer_to_index_eq, kmer_to_index_rc_eq, index_dtype_eq, nkmers_eq'),
- 'C08': ('strip_extensions, strip_seq_file_ext, get_file_id, calc_file_signatures', 'strip_extensions_eq, strip_seq_file_ext_eq, get_file_id_eq/_nostrip/_noext, calc_files_sequential_eq, calc_files_pool_eq'),
- 'C09': ('classify, get_result_item', 'classify_default_eq, classify_strict_eq, get_result_item_eq, get_result_item_head, py_closest_ok'),
- 'C10': ('find_matches, consensus_taxon, classify', 'find_matches_eq, consensus_taxon_eq, classify_strict_eq, py_consensus_perm, py_classify_strict_ok'),
- 'C12': ('the storage calls of dump_signatures_hdf5 / HDF5Signatures.create / _init_attrs / write_metadata / _init_datasets, the loader\'s checks',
-         'writer_trace_eq, hdf5_structural_facts'),
- 'C16': ('strip_extensions, strip_seq_file_ext, get_file_id', 'get_file_id_eq'),
  'C19': ('the storage calls of dump_signatures_hdf5 and everything it calls, its exception handler',
          'writer_trace_eq, writer_trace_no_flush, writer_trace_close_last, py_crash_never_loads, hdf5_structural_facts'),
- 'C20': ('AdvancedIndexingMixin.__getitem__ (as inherited by the packed and by the list-backed collections, on a dynamically typed index), _check_index, _getitem_slice, _getitem_bool_array, ConcatenatedSignatureArray.__len__/_getitem_int/sizeof/_getitem_int_array/_getitem_slice, SignatureList._getitem_int/_getitem_int_array/__setitem__/__delitem__/insert',
-         'check_index_eq, py_check_index_spec, the PyConcat / PySigList / PyGetitem theorems listed in DESIGN §9.1'),
- 'C11': ('the column table of CSVResultsExporter (COLUMNS: header and attribute path per column)', 'csv_header_eq, csv_row_eq, csv_structural_facts'),
- 'C14': ('kspec_from_params, the parameter-deciding fragments of `dist` and `signatures create`, structural facts of the three commands', 'the PyParams / PyCliFacts theorems listed in DESIGN §9.1'),
- 'C17': ('linkage_to_bio_tree', 'linkage_to_bio_tree_eq, linkage_to_bio_tree_gen, linkage_to_bio_tree_bad_labels, py_linkage_tree_props'),
+ 'C20': ('AdvancedIndexingMixin.__getitem__ (as inherited by the packed and by the list-backed collections, on a dynamically typed index), _check_index, _getitem_slice, _getitem_bool_array, ConcatenatedSignatureArray.__len__/_getitem_int/sizeof/_getitem_int_array/_getitem_slice, SignatureList._getitem_int/_getitem_int_array/__setitem__/__delitem__/insert, sigarray_eq; the method resolution of the collection classes (structural facts)',
+         'concat_getitem_eq, siglist_getitem_eq, py_getitem_same_selection, py_getitem_ill_typed, check_index_eq, concat_getitem_slice_eq, siglist_setitem_eq/_delitem_eq/_insert_eq, sigarray_eq_eq, class_structure_facts'),
 }
 
 REASON_PENDING = 'check not built yet in this round (machinery under construction; see DESIGN.md §8 build order)'
